@@ -7,11 +7,20 @@ checks = sys.argv[2:]
 d = os.path.join(VERIF, "seeded", sid)
 patch = os.path.join(d, "patch.diff")
 assert subprocess.run(["git", "-C", "/repo", "status", "--porcelain"], capture_output=True, text=True).stdout.strip() == "", "repo dirty"
-r = subprocess.run(["git", "-C", "/repo", "apply", "--3way", patch], capture_output=True, text=True)
+head = subprocess.run(["git", "-C", "/repo", "rev-parse", "HEAD"], capture_output=True, text=True).stdout.strip()
+r = subprocess.run(["git", "-C", "/repo", "apply", patch], capture_output=True, text=True)
 if r.returncode != 0:
-    r = subprocess.run(["git", "-C", "/repo", "apply", patch], capture_output=True, text=True)
-if r.returncode != 0:
-    print("patch does not apply:", r.stderr); sys.exit(2)
+    r = subprocess.run(["git", "-C", "/repo", "apply", "--3way", patch], capture_output=True, text=True)
+    unmerged = subprocess.run(["git", "-C", "/repo", "diff", "--name-only", "--diff-filter=U"], capture_output=True, text=True).stdout.strip()
+    if r.returncode != 0 or unmerged:
+        subprocess.run(["git", "-C", "/repo", "reset", "--hard", "-q", head])
+        print("patch does not apply to the current tree:", (r.stderr or unmerged)[:300])
+        meta_p = os.path.join(d, "meta.json")
+        meta = json.load(open(meta_p)) if os.path.exists(meta_p) else {}
+        for c in checks:
+            meta.setdefault("check_results", {})[c] = {"exit": None, "note": "the patch no longer applies to the final tree (the code it changes was rewritten by a later fix)", "lines": []}
+        json.dump(meta, open(meta_p, "w"), indent=1)
+        sys.exit(2)
 results = {}
 try:
     for c in checks:
@@ -26,9 +35,8 @@ try:
         for l in lines[:12]:
             print("   ", l[:300])
 finally:
-    subprocess.run(["git", "-C", "/repo", "checkout", "--", "."])
-    subprocess.run(["git", "-C", "/repo", "reset", "-q"])
-    subprocess.run(["git", "-C", "/repo", "checkout", "--", "."])
+    # /repo was clean at `head` when we started: go back to exactly that
+    subprocess.run(["git", "-C", "/repo", "reset", "--hard", "-q", head])
 meta_p = os.path.join(d, "meta.json")
 meta = json.load(open(meta_p)) if os.path.exists(meta_p) else {}
 meta.setdefault("check_results", {}).update(results)
